@@ -130,13 +130,19 @@ class BasicBlock:
             assert isinstance(target, Symbol)
             if self._config.common_subexpression_elimination:
                 expr = simplify(expr)
-            cc_expr = ccode(expr)
+            # order="old" is a structural term order; the default order breaks ties
+            # between numerically equal terms (sin(1.0*q) and sin(q)) by hash, so the
+            # generated text would depend on PYTHONHASHSEED
+            cc_expr = ccode(expr, order="old")
             yield MemberDeclaration("double", target, cc_expr)
 
         for target, expr in zip(self._targets, body):
             if self._config.common_subexpression_elimination:
                 expr = simplify(expr)
-            cc_expr = ccode(expr)
+            # order="old" is a structural term order; the default order breaks ties
+            # between numerically equal terms (sin(1.0*q) and sin(q)) by hash, so the
+            # generated text would depend on PYTHONHASHSEED
+            cc_expr = ccode(expr, order="old")
             yield MemberDeclaration("", target, cc_expr)
 
 
